@@ -33,6 +33,7 @@ func checkC15(c *core.Ctx, r *core.Report) {
 	fn := c.Fn(pkgEsWriter, "HandleBulkBody")
 	name := shortFn(fn)
 	loops := core.Loops(fn)
+	c15DocumentLineConsumed(c, r, fn)
 
 	// the items slice and the errors flag, identified through the response map
 	var itemsWeb, errorsWeb map[ssa.Value]bool
@@ -750,4 +751,111 @@ func itemStoreHelper(h *ssa.Function, sliceIdx int, isOkItem func(ssa.Value) boo
 		}
 	}
 	return sum, ""
+}
+
+// c15DocumentLineConsumed — clause FRAMING.  A bulk body is a sequence of lines: an action line, and for index /
+// create actions the document line after it.  In HandleBulkBody the action loop reads the action line at its head
+// and the document line in the arm of INDEX / CREATE.  From every entry into that arm, the read of the document line
+// is passed before the loop reads the next action line (or the function returns): an arm that rejects the action
+// before consuming its document leaves the document to be read as the next action — the response gets an item too
+// many and every following item answers for the wrong action.
+func c15DocumentLineConsumed(c *core.Ctx, r *core.Report, fn *ssa.Function) {
+	name := shortFn(fn)
+	readLine := c.Obj(pkgUtils, "ReadLine")
+	extract := c.Obj(pkgEsWriter, "ExtractIndexAndValidateAction")
+	idx, crt := c.ConstVal(pkgEsWriter, "INDEX"), c.ConstVal(pkgEsWriter, "CREATE")
+	construct := name + ":document-line-consumed-before-the-next-action"
+	var action ssa.Value
+	for _, call := range callsTo(fn, extract) {
+		if refs := call.Referrers(); refs != nil {
+			for _, u := range *refs {
+				if ex, ok := u.(*ssa.Extract); ok && ex.Index == 0 {
+					action = ex
+				}
+			}
+		}
+	}
+	reads := callsTo(fn, readLine)
+	if action == nil || len(reads) < 2 {
+		r.Undecided("ORDER", construct, c.Pos(fn.Pos()), "the action kind or the two line reads of the bulk loop were not found")
+		return
+	}
+	// the read at the head of the loop dominates the action extraction; the others are document reads
+	var head []*ssa.Call
+	var docs []*ssa.Call
+	for _, rd := range reads {
+		if core.InstrDominates(rd, action.(ssa.Instruction)) {
+			head = append(head, rd)
+		} else {
+			docs = append(docs, rd)
+		}
+	}
+	sets := core.ConstSets(action)
+	inArm := func(b *ssa.BasicBlock) bool {
+		s, ok := sets[b]
+		if !ok || len(s) == 0 {
+			return false
+		}
+		for k := range s {
+			if k != idx && k != crt {
+				return false
+			}
+		}
+		return true
+	}
+	isDoc := map[ssa.Instruction]bool{}
+	for _, d := range docs {
+		if inArm(d.Block()) {
+			isDoc[d] = true
+		}
+	}
+	isHead := map[ssa.Instruction]bool{}
+	for _, h := range head {
+		isHead[h] = true
+	}
+	nEntries := 0
+	var bad ssa.Instruction
+	for _, b := range fn.Blocks {
+		if !inArm(b) {
+			continue
+		}
+		entry := false
+		for _, p := range b.Preds {
+			if !inArm(p) {
+				entry = true
+			}
+		}
+		if !entry || len(b.Instrs) == 0 {
+			continue
+		}
+		nEntries++
+		// walk from the first instruction of the entry block
+		first := b.Instrs[0]
+		if isDoc[first] {
+			continue
+		}
+		core.WalkForward(fn, first, func(in ssa.Instruction) bool {
+			if isDoc[in] {
+				return false
+			}
+			if (isHead[in] || isReturn(in)) && bad == nil {
+				bad = in
+			}
+			return true
+		})
+	}
+	if nEntries == 0 {
+		r.Undecided("ORDER", construct, c.Pos(fn.Pos()), "the arm of the INDEX / CREATE actions was not found")
+		return
+	}
+	if bad != nil {
+		r.Violation("ORDER", construct, c.Pos(bad.Pos()), "the arm of an index / create action can be left without reading the action's document line: the document is then read as the next action line, the response has one item more than the request has actions and the items after it answer for the wrong actions")
+	} else {
+		r.OK("ORDER", construct, c.Pos(docs[0].Pos()), "every path through the index / create arm reads the document line before the next action line is read")
+	}
+}
+
+func isReturn(in ssa.Instruction) bool {
+	_, ok := in.(*ssa.Return)
+	return ok
 }
